@@ -4,7 +4,7 @@ operations sequence in Rust's evaluation order."""
 import re
 
 from r2c_parse import ParseError, INT_BITS, SINT_BITS, parse_expr_src, parse_type_tokens, parse_body_tokens, parse_params, lex, Parser
-from r2c_ir import Ret, Fail, Bind, BindT, Let, If, Match, OBind, Fold, effectful, atom, inline, render
+from r2c_ir import Ret, Fail, ErrT, MonT, Bind, BindT, Let, If, Match, OBind, Fold, effectful, atom, inline, render, lpat
 
 MUTATING = {"pop", "push", "push_back", "pop_front", "insert", "remove", "clear", "entry", "truncate", "extend"}
 
@@ -43,8 +43,9 @@ def unify(a, b):
 
 
 class Sig:
-    def __init__(self, coq, params, has_self, ret, eff, template=None):
+    def __init__(self, coq, params, has_self, ret, eff, template=None, extra=()):
         self.coq, self.params, self.has_self, self.ret, self.eff, self.template = coq, params, has_self, ret, eff, template
+        self.extra = list(extra)     # names of additional parameters every caller must itself have (e.g. an abstract digest)
 
 
 class Ctx:
@@ -56,9 +57,15 @@ class Ctx:
         self.binds = list(binds)
         self.allowed = list(allowed)
         self.retk = None
+        self.in_loop = False
+        self.allowed_stmts = []
+        self.anyhow = {}     # anyhow message -> constructor of the model's error type
 
     def child(self, nested=None):
         c = Ctx(self.what, self.self_type, self.ret, self.binds, self.allowed)
+        c.in_loop = self.in_loop
+        c.allowed_stmts = self.allowed_stmts
+        c.anyhow = self.anyhow
         c.vars = dict(self.vars)
         c.mut = set(self.mut)
         c.nested = self.nested if nested is None else nested
@@ -81,6 +88,19 @@ def diverges(e):
         return e[3] is not None and diverges(e[2]) and diverges(e[3])
     if e[0] == "match":
         return all(diverges(b) for _, b in e[2])
+    return False
+
+
+def is_err_return(e):
+    return e[0] == "return" and e[1] is not None and e[1][0] == "call" and e[1][1] == ["Err"]
+
+
+def has_value_return(e):
+    """Does the AST contain a `return` other than `return Err(..)`?"""
+    if isinstance(e, tuple) and len(e) >= 2 and e[0] == "return" and not is_err_return(e):
+        return True
+    if isinstance(e, (list, tuple)):
+        return any(has_value_return(x) for x in e)
     return False
 
 
@@ -110,6 +130,7 @@ class Translator:
         self.active = []
         self.out = []               # (coq name, text) in dependency order
         self.verified = set()
+        self.ops = {}               # (type name, operator) -> (Gallina template over {0} {1}, effectful)
         self.verify = None          # callback(name, spec): compares a table entry with its source declaration
 
     # ---- small helpers
@@ -198,6 +219,35 @@ class Translator:
             return s["eqb"]
         self.err(ctx, f"no equality known for type {t}")
 
+    # ---- enum variants of the type table: (constructor or template, arg types[, "drop"])
+    def variant_apply(self, spec, args):
+        ctor = spec[0]
+        if "{" in ctor:
+            return "(" + ctor.format(*[atom(a) for a in args]) + ")"
+        if len(spec) > 2 and spec[2] == "drop":
+            return ctor
+        return "(" + " ".join([ctor] + [atom(a) for a in args]) + ")" if args else ctor
+
+    def variant_fun(self, spec):
+        ctor, n = spec[0], len(spec[1])
+        if len(spec) > 2 and spec[2] == "drop":
+            return "(fun " + " ".join("_" for _ in range(max(n, 1))) + " => " + ctor + ")"
+        if "{" in ctor:
+            xs = [f"x{i}" for i in range(n)]
+            return "(fun " + " ".join(xs) + " => " + ctor.format(*xs) + ")"
+        return ctor
+
+    def err_fun(self, a, ctx, argtypes):
+        """argument of map_err: an enum variant used as a function, or a closure"""
+        if a[0] == "path" and len(a[1]) >= 2:
+            ty = ctx.self_type if a[1][-2] == "Self" else a[1][-2]
+            sp = self.tget(ty)
+            if sp and sp["kind"] == "enum" and a[1][-1] in sp["variants"]:
+                return self.variant_fun(sp["variants"][a[1][-1]]), ("named", ty)
+        if a[0] == "closure":
+            return self.closure(a, argtypes, ctx)
+        self.err(ctx, "map_err with something that is neither a table variant nor a closure")
+
     # ---- patterns
     def pat(self, p, t, ctx):
         """-> (Gallina pattern, [(rust name, coq name, type)])"""
@@ -268,6 +318,8 @@ class Translator:
                 return k(acc)
 
             def got(v, t):
+                if strip(t)[0] == "result":
+                    self.err(ctx, "a Result value used other than by `?`, map_err, context or as the return value")
                 acc.append((v, t))
                 return go(i + 1)
             return self.ex(es[i], ctx, got, hints[i] if hints and i < len(hints) else None)
@@ -297,10 +349,20 @@ class Translator:
                     self.err(ctx, f"literal {v} does not fit i{h[1]}")
                 return k(str(v), h)
         if bits is None:
-            self.err(ctx, f"cannot infer the integer type of literal {v}")
+            return k(str(v), ("hole", [None]))    # fixed by the first operation it meets
         if v >= 2 ** bits:
             self.err(ctx, f"literal {v} does not fit {bits} bits")
         return k(str(v), ("int", bits))
+
+    def ex_str(self, e, ctx, k, hint, tail):
+        self.err(ctx, "string literal outside ensure!/bail!/context is outside the subset")
+
+    def anyhow_code(self, a, ctx):
+        if a[0] != "str":
+            self.err(ctx, "anyhow error whose message is not a plain string literal")
+        if a[1] not in ctx.anyhow:
+            self.err(ctx, f"anyhow message {a[1]!r} has no entry in the target's message table")
+        return ctx.anyhow[a[1]]
 
     def ex_bool(self, e, ctx, k, hint, tail):
         return k("true" if e[1] else "false", ("bool",))
@@ -327,6 +389,8 @@ class Translator:
             ty = ctx.self_type
         if ty in INT_BITS and name == "MAX":
             return k(str(2 ** INT_BITS[ty] - 1), ("int", INT_BITS[ty]))
+        if ty in SINT_BITS and name == "MIN":
+            return k(f"(-{2 ** (SINT_BITS[ty] - 1)})", ("sint", SINT_BITS[ty]))
         if ty in SINT_BITS and name == "MAX":
             return k(str(2 ** (SINT_BITS[ty] - 1) - 1), ("sint", SINT_BITS[ty]))
         c = self.need_const(ty, name)
@@ -366,10 +430,17 @@ class Translator:
     def emit_call(self, sig, vals, ctx, k):
         if len(vals) != len(sig.params) + (1 if sig.has_self else 0):
             self.err(ctx, f"call of {sig.coq}: wrong number of arguments")
+        extra = []
+        for x in sig.extra:
+            if x not in ctx.vars:
+                self.err(ctx, f"callee {sig.coq} needs the abstract input `{x}`, which this function does not have")
+            extra.append(ctx.vars[x][0])
         if sig.template:
             expr = sig.template.format(*[atom(v) for v in vals])
         else:
-            expr = " ".join([sig.coq] + (["chk"] if sig.eff else []) + [atom(v) for v in vals])
+            expr = " ".join([sig.coq] + (["chk"] if sig.eff else []) + [atom(v) for v in vals] + extra)
+        if strip(sig.ret)[0] == "result":
+            return k(atom(expr), sig.ret)       # a pending computation: consumed by `?`, map_err or a return
         if sig.eff:
             t = self.fresh()
             return Bind(t, expr, k(t, sig.ret))
@@ -384,8 +455,10 @@ class Translator:
             h = strip(hint) if hint else None
             return self.ex(args[0], ctx, lambda v, t: k(f"(Some {atom(v)})", ("option", t)),
                            h[1] if h and h[0] == "option" else None)
-        if segs[-1] in ("Ok", "Err") and len(segs) == 1:
-            self.err(ctx, "Result values are outside the subset")
+        if segs == ["Ok"] and len(args) == 1:
+            return self.ex(args[0], ctx, lambda v, t: k(f"(Ok {atom(v)})", ("result", t, ("hole", [None]))))
+        if segs == ["Err"] and len(args) == 1:
+            return self.ex(args[0], ctx, lambda v, t: k(f"(Err {atom(v)})", ("result", ("hole", [None]), t)))
         s = self.tget(last)
         if s and s["kind"] == "newtype":
             if len(args) != 1:
@@ -398,12 +471,17 @@ class Translator:
             ty = ctx.self_type if segs[-2] == "Self" else segs[-2]
             s = self.tget(ty)
             if s and s["kind"] == "enum" and last in s["variants"]:
-                ctor, ats = s["variants"][last]
-                return self.exs(args, ctx, lambda vs: k("(" + " ".join([ctor] + [atom(v) for v, _ in vs]) + ")", ("named", ty)),
-                                [parse_type_src(a) for a in ats])
+                vsp = s["variants"][last]
+                return self.exs(args, ctx, lambda vs: k(self.variant_apply(vsp, [v for v, _ in vs]), ("named", ty)),
+                                [parse_type_src(a) for a in vsp[1]])
             if ty in ("HashMap", "BTreeMap") and last == "new" and not args:
                 h = strip(hint) if hint else None
                 return k("[]", h if h and h[0] == "map" else ("map", ty, ("hole", [None]), ("hole", [None])))
+            if ty == "Box" and last == "new" and len(args) == 1:
+                return self.ex(args[0], ctx, k, hint)
+            if ty == "BitVec" and last == "from_elem" and len(args) == 2:
+                return self.exs(args, ctx, lambda vs: k(f"(repeat {atom(vs[1][0])} (Z.to_nat {atom(vs[0][0])}))", ("list", ("bool",))),
+                                [("int", 64), ("bool",)])
             if ty in ("Vec", "VecDeque") and last == "new" and not args:
                 h = strip(hint) if hint else None
                 return k("[]", h if h and h[0] == "list" else ("list", ("hole", [None])))
@@ -417,10 +495,35 @@ class Translator:
             else:
                 hints = sig.params
             return self.exs(args, ctx, lambda vs: self.emit_call(sig, [v for v, _ in vs], ctx, k), hints)
+        if last == "required" and len(args) == 1 and "<required>" in ctx.anyhow:
+            # zksync_protobuf::required(&Option<T>) -> anyhow::Result<&T>
+            def got_o(o, ot):
+                ot = strip(ot)
+                if ot[0] != "option":
+                    self.err(ctx, "required() of a non-Option")
+                return k(f"(ok_or {atom(o)} {ctx.anyhow['<required>']})", ("result", ot[1], ("named", "anyhow")))
+            return self.ex(args[0], ctx, got_o)
         sig = self.need_fn("", last)
         if sig is None:
             self.err(ctx, f"call of unknown function {last}")
         return self.exs(args, ctx, lambda vs: self.emit_call(sig, [v for v, _ in vs], ctx, k), sig.params)
+
+    def closure_m(self, c, ptypes, ctx):
+        """closure whose body may panic -> (Gallina fun into the outcome monad or pure fun, result type, effectful)"""
+        if c[0] != "closure" or len(c[1]) != len(ptypes):
+            self.err(ctx, "expected a closure argument of matching arity")
+        cctx = ctx.child(nested=True)
+        pats = []
+        for p, t in zip(c[1], ptypes):
+            s, vs = self.pat(p, t, ctx)
+            pats.append(s)
+            for r, cq, ty in vs:
+                cctx.vars[r] = (cq, ty)
+                cctx.mut.discard(r)
+        term, ty = self.value_term(c[2], cctx)
+        eff = effectful(term)
+        body = " ".join(render(term, eff, 0).split())
+        return "(fun " + " ".join(lpat(p) for p in pats) + " => " + body + ")", ty, eff
 
     def closure(self, c, ptypes, ctx):
         """pure closure -> (Gallina fun, result type)"""
@@ -444,6 +547,8 @@ class Translator:
 
     def ex_mcall(self, e, ctx, k, hint, tail):
         recv, name, args = e[1], e[2], e[3]
+        if len(e) > 4:
+            self.err(ctx, f"method call {name}::<..> with explicit type arguments is outside the subset")
         if name == "unwrap_or" and len(args) == 1 and recv[0] == "mcall" and recv[2] == "try_into" and not recv[3]:
             # x.try_into().unwrap_or(d): the target type is the type of d
             def got_d(d, dt):
@@ -471,8 +576,30 @@ class Translator:
                 if not sig.has_self:
                     self.err(ctx, f"{t[1]}::{name} is not a method")
                 return self.exs(args, ctx, lambda vs: self.emit_call(sig, [r] + [v for v, _ in vs], ctx, k), sig.params)
+            if kind == "result":
+                if name == "map_err" and len(args) == 1:
+                    f, et = self.err_fun(args[0], ctx, [t[2]])
+                    return k(f"(rmap_err {f} {r})", ("result", t[1], et))
+                if name in ("context", "with_context") and len(args) == 1:
+                    # anyhow context on a Result: a message of the target's table names the model's error code for this
+                    # failure; any other context only decorates the error
+                    if args[0][0] == "str" and args[0][1] in ctx.anyhow:
+                        return k(f"(rmap_err (fun _ => {ctx.anyhow[args[0][1]]}) {r})", ("result", t[1], ("named", "anyhow")))
+                    return k(r, t)
+                self.err(ctx, f"Result method {name} is outside the subset")
+            if kind in ("int", "sint") and name == "into" and not args:
+                h = strip(hint) if hint else None
+                if h and h[0] == kind and h[1] >= t[1]:
+                    return k(r, h)
+                if h and h[0] == "sint" and kind == "int" and h[1] > t[1]:
+                    return k(r, h)
+                self.err(ctx, ".into() whose target type is not a known wider integer type")
             if kind == "int":
                 b = t[1]
+                if name == "checked_div" and len(args) == 1:
+                    return self.ex(args[0], ctx, lambda v, _t: k(f"(uN_checked_div {r} {atom(v)})", ("option", t)), t)
+                if name == "to_be_bytes" and b == 64 and not args:
+                    return k(f"(u64_to_be_bytes {r})", ("list", ("int", 8)))
                 one = {"checked_add": (f"uN_checked_add {b}" if b != 64 else "u64_checked_add", ("option", t)),
                        "checked_sub": ("uN_checked_sub", ("option", t)),
                        "checked_mul": (f"uN_checked_mul {b}", ("option", t)),
@@ -496,6 +623,15 @@ class Translator:
                     return self.ex(args[0], ctx, lambda v, _t: k(f"(unwrap_or {r} {atom(v)})", unify(t[1], _t)), t[1])
                 if name in ("as_ref", "copied", "cloned", "as_deref") and not args:
                     return k(r, t)
+                if name == "is_some_and" and len(args) == 1:
+                    f, rt, eff = self.closure_m(args[0], [t[1]], ctx)
+                    if eff:
+                        v = self.fresh()
+                        return Bind(v, f"is_some_and_m {f} {r}", k(v, ("bool",)))
+                    return k(f"(match {r} with Some x => {f} x | None => false end)", ("bool",))
+                if name == "context" and len(args) == 1:
+                    code = self.anyhow_code(args[0], ctx)
+                    return k(f"(ok_or {r} {code})", ("result", t[1], ("named", "anyhow")))
                 if name == "map" and len(args) == 1:
                     a = args[0]
                     if a[0] == "path":
@@ -521,11 +657,39 @@ class Translator:
                     return k(r, ("list", el))
                 if name == "len" and not args:
                     return k(f"(vec_len {r})", ("int", 64))
+                if kind == "list" and name == "get" and len(args) == 1:
+                    return self.ex(args[0], ctx, lambda v, _t: k(f"(vec_get {r} {atom(v)})", ("option", el)), ("int", 64))
+                if kind == "list" and name in ("next", "first") and not args:
+                    return k(f"(hd_error {r})", ("option", el))
+                if name == "enumerate" and not args:
+                    return k(f"(vec_enumerate {r})", ("list", ("tuple", [("int", 64), el])))
+                if kind == "map" and name == "into_values" and not args:
+                    return k(f"(map snd {r})", ("list", t[3]))
+                if kind == "map" and name == "get" and len(args) == 1:
+                    def got_gk(kv, kt):
+                        kt2 = unify(t[2], kt)
+                        return k(f"(bt_get {self.eqb(kt2, ctx)} {r} {atom(kv)})", ("option", t[3]))
+                    return self.ex(args[0], ctx, got_gk)
+                if kind == "map" and name == "contains_key" and len(args) == 1 and t[1] == "BTreeMap":
+                    def got_key(kv, kt):
+                        kt2 = unify(t[2], kt)
+                        return k(f"(bt_contains {self.eqb(kt2, ctx)} {r} {atom(kv)})", ("bool",))
+                    return self.ex(args[0], ctx, got_key)
                 if name == "is_empty" and not args:
                     return k(f"(vec_len {r} =? 0)", ("bool",))
+                if kind == "list" and name == "none" and not args and strip(el) == ("bool",):
+                    return k(f"(bitvec_none {r})", ("bool",))
                 if name == "filter" and len(args) == 1:
-                    f, _ = self.closure(args[0], [el], ctx)
+                    f, _, eff = self.closure_m(args[0], [el], ctx)
+                    if eff:
+                        v = self.fresh()
+                        return Bind(v, f"filter_m {f} {r}", k(v, ("list", el)))
                     return k(f"(filter {f} {r})", ("list", el))
+                if kind == "list" and name == "count" and not args:
+                    return k(f"(vec_len {r})", ("int", 64))
+                if kind == "list" and name == "sum" and not args and strip(el) == ("int", 64):
+                    v = self.fresh()
+                    return Bind(v, f"sum_u64 chk {r}", k(v, ("int", 64)))
                 if name == "filter_map" and len(args) == 1:
                     f, rt = self.closure(args[0], [el], ctx)
                     rt = strip(rt)
@@ -535,6 +699,14 @@ class Translator:
                 if name == "map" and len(args) == 1:
                     f, rt = self.closure(args[0], [el], ctx)
                     return k(f"(map {f} {r})", ("list", rt))
+                if name == "any" and len(args) == 1:
+                    f, rt, eff = self.closure_m(args[0], [el], ctx)
+                    if strip(rt) != ("bool",):
+                        self.err(ctx, "any: closure does not return bool")
+                    if eff:
+                        v = self.fresh()
+                        return Bind(v, f"any_m {f} {r}", k(v, ("bool",)))
+                    return k(f"(existsb {f} {r})", ("bool",))
                 if name == "max_by_key" and len(args) == 1:
                     f, rt = self.closure(args[0], [el], ctx)
                     if not self.zlike(rt):
@@ -560,7 +732,11 @@ class Translator:
             if s and s["kind"] == "newtype" and name == "0":
                 return k(r, s["inner"])
             if s and s["kind"] == "record" and name in s["fields"]:
+                if s["fields"][name][0] is None:
+                    self.err(ctx, f"field .{name} of {t[1]} has no counterpart in the hand model (type table)")
                 proj, ft = s["fields"][name]
+                if "{0}" in proj:
+                    return k("(" + proj.format(atom(r)) + ")", parse_type_src(ft))
                 return k(f"({proj} {atom(r)})", parse_type_src(ft))
             if t[0] == "tuple" and name.isdigit() and int(name) < len(t[1]):
                 n, i = len(t[1]), int(name)
@@ -573,7 +749,16 @@ class Translator:
         return self.ex(e[1], ctx, with_recv)
 
     def ex_index(self, e, ctx, k, hint, tail):
-        self.err(ctx, "indexing is outside the subset unless bound by the target's expression table")
+        def got_l(l, lt):
+            lt = strip(lt)
+            if lt[0] != "list":
+                self.err(ctx, "indexing something that is not a Vec/slice is outside the subset unless bound by the target's expression table")
+
+            def got_i(i, it):
+                v = self.fresh()
+                return Bind(v, f"vec_index {atom(l)} {atom(i)}", k(v, lt[1]))
+            return self.ex(e[2], ctx, got_i, ("int", 64))
+        return self.ex(e[1], ctx, got_l)
 
     def ex_unary(self, e, ctx, k, hint, tail):
         op = e[1]
@@ -643,6 +828,15 @@ class Translator:
                     r = {"<": f"({av} <? {bv})", ">": f"({bv} <? {av})", "<=": f"({av} <=? {bv})", ">=": f"({bv} <=? {av})"}[op]
                     return k(r, ("bool",))
                 ts = strip(t)
+                nm = strip(t1)[1] if strip(t1)[0] == "named" else None
+                if nm and (nm, op) in self.ops:
+                    tmpl, eff, rty = self.ops[(nm, op)]
+                    rty = rty or strip(t1)
+                    m = tmpl.format(av, bv)
+                    if eff:
+                        r = self.fresh()
+                        return Bind(r, m, k(r, rty))
+                    return k("(" + m + ")", rty)
                 if ts[0] == "sint" and strip(t1) == strip(t2) and op in ("+", "-", "*", "/"):
                     m = f"sN_{ {'+': 'add', '-': 'sub', '*': 'mul', '/': 'div'}[op] } {ts[1]} chk {av} {bv}"
                     r = self.fresh()
@@ -669,10 +863,19 @@ class Translator:
         return self.ex(first, ctx, got1, arith_hint)
 
     def ex_try(self, e, ctx, k, hint, tail):
-        if ctx.nested:
+        if strip(ctx.ret)[0] == "result":
+            # `?` on a Result in a Result-returning function: monadic bind (an Err propagates like a panic does)
+            def got_r(m, t):
+                t = strip(t)
+                if t[0] != "result":
+                    self.err(ctx, "`?` on a non-Result in a Result-returning function")
+                x = self.fresh()
+                return Bind(x, m, k(x, t[1]))
+            return self.ex(e[1], ctx, got_r)
+        if ctx.nested or ctx.in_loop:
             self.err(ctx, "`?` inside a nested value expression / loop / closure is outside the subset")
         if strip(ctx.ret)[0] != "option":
-            self.err(ctx, "`?` in a function that does not return Option is outside the subset")
+            self.err(ctx, "`?` in a function that does not return Option or Result is outside the subset")
 
         def got(v, t):
             t = strip(t)
@@ -683,6 +886,9 @@ class Translator:
         return self.ex(e[1], ctx, got)
 
     def ex_return(self, e, ctx, k, hint, tail):
+        if is_err_return(e) and strip(ctx.ret)[0] == "result":
+            # an Err leaves the function from anywhere, like a panic does
+            return self.ex(e[1][2][0], ctx, lambda v, t: ErrT(v))
         if ctx.nested:
             self.err(ctx, "`return` inside a nested value expression / loop / closure is outside the subset")
         if e[1] is None:
@@ -709,12 +915,25 @@ class Translator:
     def ex_struct(self, e, ctx, k, hint, tail):
         segs, fs, base = e[1], e[2], e[3]
         nm = ctx.self_type if segs[-1] == "Self" else segs[-1]
+        if len(segs) >= 2:
+            ety = ctx.self_type if segs[-2] == "Self" else segs[-2]
+            es = self.tget(ety)
+            if es and es["kind"] == "enum" and segs[-1] in es["variants"] and isinstance(es["variants"][segs[-1]][1], dict):
+                vsp = es["variants"][segs[-1]]
+                if sorted(f for f, _ in fs) != sorted(vsp[1]) or base is not None:
+                    self.err(ctx, f"fields of variant {segs[-1]} differ from the type table")
+                return self.exs([x for _, x in fs], ctx,
+                                lambda vs: k(self.variant_apply((vsp[0], list(vsp[1])) + tuple(vsp[2:]), [v for v, _ in vs]), ("named", ety)),
+                                [parse_type_src(vsp[1][f]) for f, _ in fs])
         s = self.tget(nm)
         if not s or s["kind"] != "record" or base is not None:
             self.err(ctx, f"struct literal {nm} is outside the subset")
         if sorted(f for f, _ in fs) != sorted(s["fields"]):
             self.err(ctx, f"struct literal {nm}: fields differ from the type table")
         hints = [parse_type_src(s["fields"][f][1]) for f, _ in fs]
+        if s.get("mk"):
+            return self.exs([x for _, x in fs], ctx,
+                            lambda vs: k("(" + s["mk"].format(**{f: atom(v) for (f, _), (v, _) in zip(fs, vs)}) + ")", ("named", nm)), hints)
 
         def got(vs):
             return k("{| " + "; ".join(f"{s['fields'][f][0]} := {v}" for (f, _), (v, _) in zip(fs, vs)) + " |}", ("named", nm))
@@ -794,11 +1013,15 @@ class Translator:
 
         def rest():
             return self.stmts(ss, i + 1, tailexpr, ctx, k, hint, tail)
+        if s in ctx.allowed_stmts:
+            return rest()
         if s[0] == "let":
             _, p, ty, init, els, mut = s
 
             def got(v, t):
                 t = unify(ty, t) if ty is not None else t
+                if strip(t)[0] == "result":
+                    self.err(ctx, "a Result value bound by `let` (instead of `?`) is outside the subset")
                 if els is not None:
                     if ctx.nested:
                         self.err(ctx, "let-else inside a nested value expression is outside the subset")
@@ -844,6 +1067,11 @@ class Translator:
                     # debug assertions are on exactly in the profile that has overflow checks on (cargo dev / release)
                     return self.ex(args[0], ctx, lambda c, t: Bind("_", f"rdebug_assert chk {atom(c)}", rest()), ("bool",))
                 return self.ex(args[0], ctx, lambda c, t: If(c, rest(), Fail("PAssert")), ("bool",))
+            if name == "ensure" and len(args) >= 2:
+                code = self.anyhow_code(args[1], ctx)
+                return self.ex(args[0], ctx, lambda c, t: If(c, rest(), ErrT(code)), ("bool",))
+            if name == "bail" and len(args) == 1:
+                return ErrT(self.anyhow_code(args[0], ctx))
             if name in ("assert_eq", "assert_ne") and len(args) >= 2:
                 cmp = ("binary", "==" if name == "assert_eq" else "!=", args[0], args[1])
                 return self.ex(cmp, ctx, lambda c, t: If(c, rest(), Fail("PAssert")))
@@ -854,7 +1082,24 @@ class Translator:
             return self.stmt_for(e, ctx, rest)
         if e[0] == "assign":
             return self.stmt_assign(e, ctx, rest)
-        if e[0] == "block":
+        if (e[0] == "mcall" and e[2] == "insert" and len(e[3]) == 2 and e[1][0] == "path" and len(e[1][1]) == 1
+                and e[1][1][0] in ctx.mut and strip(ctx.vars[e[1][1][0]][1])[0] == "map"):
+            name = e[1][1][0]
+            cq, mt = ctx.vars[name]
+            mt = strip(mt)
+            if mt[1] != "BTreeMap":
+                self.err(ctx, "insert into a HashMap is outside the subset (iteration order)")
+
+            def got_kv(vs):
+                (kv, kt), (vv, vt) = vs
+                kt2, vt2 = unify(mt[2], kt), unify(mt[3], vt)
+                if not self.zlike(kt2):
+                    self.err(ctx, "BTreeMap key whose order is not the integer order of its model")
+                self.derives(kt2, "Ord", ctx)
+                ctx.vars[name] = (cq, ("map", "BTreeMap", kt2, vt2))
+                return Let(cq, f"bt_insert Z.ltb Z.eqb {cq} {atom(kv)} {atom(vv)}", rest())
+            return self.exs(e[3], ctx, got_kv)
+        if e[0] in ("block", "try"):
             return self.ex(e, ctx, lambda v, t: rest())
         if e in ctx.allowed:
             return rest()
@@ -878,7 +1123,7 @@ class Translator:
                 return self.ex(cond[2], ctx, got_s)
             return self.ex(cond, ctx, lambda c, t: If(c, c_then(ctx.child()), c_else(ctx.child())), ("bool",))
         if dth or del_:
-            if ctx.nested:
+            if ctx.nested and (has_value_return([th, el]) or strip(ctx.ret)[0] != "result"):
                 self.err(ctx, "early `return` inside a nested value expression / loop is outside the subset")
 
             def side(blk, div):
@@ -906,8 +1151,12 @@ class Translator:
     def stmt_for(self, e, ctx, rest):
         p, it, body = e[1], e[2], e[3]
         ms = sorted(n for n in mutated(body, set()) if n in ctx.mut)
-        if not ms:
-            self.err(ctx, "`for` loop that updates no `let mut` local is outside the subset")
+
+        early = has_value_return(body)
+        if not ms and not early and strip(ctx.ret)[0] != "result":
+            self.err(ctx, "`for` loop that neither updates a `let mut` local nor returns is outside the subset")
+        if early and ctx.nested:
+            self.err(ctx, "`for` loop with `return` inside a nested value expression is outside the subset")
 
         def got(l, t):
             t = strip(t)
@@ -917,6 +1166,19 @@ class Translator:
                 el = ("tuple", [t[2], t[3]])
             else:
                 self.err(ctx, f"`for` over type {t} is outside the subset")
+            if early:
+                c = ctx.child(nested=False)
+                c.in_loop = True
+                c.retk = lambda v, _t: Ret(f"(inl {atom(v)})")
+                ps, vs = self.pat(p, el, ctx)
+                for r, cq, ty in vs:
+                    c.vars[r] = (cq, ty)
+                    c.mut.discard(r)
+                spat, sval = self.state_pat(ms, ctx)
+                bt = self.ex(body, c, lambda v, _t: Ret(f"(inr {atom(self.state_pat(ms, c)[1])})"))
+                tmp, rv = self.fresh(), self.fresh()
+                m = (f"fold_ret (fun {lpat(spat)} {lpat(ps)} =>\n" + render(bt, True, 3) + f")\n      {atom(l)} {atom(sval)}")
+                return Bind(tmp, m, Match(tmp, [(f"inl {rv}", ctx.retk(rv, ctx.ret)), (f"inr {spat}", rest())]))
             c = ctx.child(nested=True)
             ps, vs = self.pat(p, el, ctx)
             for r, cq, ty in vs:
@@ -960,19 +1222,32 @@ class Translator:
         self.err(ctx, "assignment to anything but a `let mut` local (or the HashMap tally idiom) is outside the subset")
 
     # ---- definitions
-    def define_fn(self, what, self_type, coq_name, params, ret, body_ast, binds=(), allowed=(), as_expr=False, state=()):
+    def define_fn(self, what, self_type, coq_name, params, ret, body_ast, binds=(), allowed=(), as_expr=False, state=(),
+                  anyhow=None, err_coq=None, extra=(), allowed_stmts=()):
         """params: [(rust name, type)] (including self if wanted). Returns Sig.
         state: names of parameters that are updated in place (fields of `&mut self` read as locals); the
         definition then returns their final values (the Rust function must return ())."""
         ctx = Ctx(what, self_type, ret, binds, allowed)
-        for n, t in params:
+        for n, t in list(params) + list(extra):
             if strip(t) != t and t[0] == "refmut":
                 self.err(ctx, f"`&mut` parameter {n} is outside the subset")
             ctx.vars[n] = ("v_" + n, t)
         for n in state:
             ctx.mut.add(n)
+        ctx.anyhow = dict(anyhow or {})
+        ctx.allowed_stmts = list(allowed_stmts)
+        is_res = strip(ret)[0] == "result"
 
         def retk(v, t):
+            if is_res:
+                if strip(t)[0] != "result":
+                    self.err(ctx, "a Result-returning function returning a non-Result value")
+                unify(ret, t)
+                if v.startswith("(Ok ") and v.endswith(")"):
+                    return Ret(v[4:-1])
+                if v.startswith("(Err ") and v.endswith(")"):
+                    return ErrT(v[5:-1])
+                return MonT(v)
             if state:
                 if strip(t) != ("unit",):
                     self.err(ctx, "a state-updating function must return ()")
@@ -987,8 +1262,17 @@ class Translator:
             term = self.ex(body_ast, ctx, retk, ret, True)
         else:
             term = self.stmts(body_ast[1], 0, body_ast[2], ctx, retk, ret, True)
-        eff = effectful(term)
-        args = " ".join(f"(v_{n} : {self.coq_type(t)})" for n, t in params)
+        eff = effectful(term) or is_res
+        args = " ".join(f"(v_{n} : {self.coq_type(t)})" for n, t in list(params) + list(extra))
+        if is_res:
+            et = strip(ret)[2]
+            ec = err_coq or (self.coq_type(et) if et != ("named", "anyhow") else None)
+            if ec is None:
+                self.err(ctx, "anyhow::Result function without an error type given by the target")
+            head = f"Definition {coq_name} (chk : bool) {args} : outcome {atom(ec)} {atom(self.coq_type(strip(ret)[1]))} :="
+            text = head.replace("  ", " ") + "\n" + render(term, True, 1) + "."
+            self.out.append((coq_name, text))
+            return True
         rt = self.coq_type(ret)
         if eff:
             head = f"Definition {coq_name} {{E : Type}} (chk : bool) {args} : outcome E {atom(rt)} :="
